@@ -535,7 +535,8 @@ def cases(ctx):
             mb = rng.getrandbits(56)
             if rng.random() < 0.5:  # sparse payloads satisfy more format rules
                 mb &= rng.getrandbits(56) & rng.getrandbits(56)
-            ms.append("%028X" % bits.with_pi((df << 83) | (rng.getrandbits(27) << 56) | mb, 112, rng.getrandbits(24)))
+            hx = "%028X" % bits.with_pi((df << 83) | (rng.getrandbits(27) << 56) | mb, 112, rng.getrandbits(24))
+            ms.append(hx.lower() if rng.random() < 0.1 else hx)
         yield "t0", {"msgs": ms}
     regs = ["BDS10", "BDS17", "BDS20", "BDS30", "BDS40", "BDS44", "BDS45", "BDS50", "BDS60"]
     for reg in regs:
